@@ -17,59 +17,114 @@ from prompt_toolkit.keys import Keys
 
 ID = "C03"
 DRIVER = "drv_c03"
-PROPS = ["Ptk.Props.C03"]
-LEVEL_TEXT = ("Lean 4 theorems over an executable model of Vt100Parser (prefix/longest-match coroutine with retry "
-              "loop and persistent flush flag, prefix-of-longer-match table incl. CPR/mouse recognisers, paste fast "
-              "path with re-feed) and of the read path below it (incremental UTF-8 decoder with surrogateescape, "
-              "PosixStdinReader.read, Vt100Input.read_keys/flush_keys): chunk independence for every splitting of "
-              "every character stream AND of every byte stream (with flushes at fixed stream positions), "
-              "losslessness (input = data of the key presses + pending prefix/paste), flush empties the prefix, "
-              "every table sequence / CPR report / mouse report decodes to its key(s) as one press; stated for every "
-              "table satisfying decidable side conditions which the kernel re-decides on ANSI_SEQUENCES regenerated "
-              "from /repo on every run; the model is tied to /repo by regex pattern pins, a recogniser-vs-re "
-              "differential and a differential correspondence on Vt100Parser, on PosixStdinReader over a real pipe "
-              "and on Vt100Input over a real pipe (exhaustive small scope + random)")
-LEVEL_NOTE = ("trusted: Lean kernel, axioms propext/Classical.choice/Quot.sound only; the hand-written model "
-              "(validated by the correspondence, not proved equal to the Python); CPython str/re/codecs semantics")
+PROPS = ["Ptk.Props.C03"]  # imports (and so audits) C03Lemmas, C03Lossless, C03Decode, C03Utf8, C03Spec, C03Struct,
+# C03Shift, C03Refine, C03Gen2
+LEVEL_TEXT = ("Lean 4 theorems over an executable model of Vt100Parser (prefix/longest-match coroutine with its retry "
+              "loop - a `for` without `break` - and persistent flush flag, prefix-of-longer-match predicate incl. CPR/"
+              "mouse recognisers and the dict that caches it, _call_handler with tuple keys and data, paste fast path "
+              "with re-feed), of the read path below it (incremental UTF-8 decoder with surrogateescape, "
+              "PosixStdinReader.read with select / os.read of at most `count`=1024 bytes / EOF / OSError / `closed`, "
+              "Vt100Input.read_keys / flush_keys / closed) and of the typeahead store. REFINEMENT: for every table "
+              "satisfying two sets of decidable side conditions, every stream and every way of cutting it into reads, "
+              "feed* + flush computes exactly a declarative maximal-munch tokenisation of the WHOLE stream (a plain "
+              "recursive function: next token = the longest prefix of what is left that is a table sequence / CPR / "
+              "mouse report, proved to be the longest; else one raw character; ESC[200~ ... ESC[201~ = one verbatim "
+              "paste press; an unterminated paste stays open) - also segment by segment between flush timeouts, and "
+              "end to end from the bytes waiting on the descriptor through reads of at most 1024 bytes, also up to "
+              "EOF. Chunk independence (character and byte streams, flushes at fixed positions), losslessness "
+              "(input = data of the key presses + pending prefix/paste), 'flush empties the prefix', 'every table "
+              "sequence / CPR / mouse report decodes to its key(s) as one press, data on the first', the meta prefix "
+              "(ESC + char = two presses) and raw / control characters inside a stream are proved directly and "
+              "follow from the refinement; `closed` is set exactly on EOF or a dead descriptor and nothing is "
+              "delivered after it; the prefix cache is a pure memo of the predicate; get_typeahead returns exactly "
+              "what was stored for that input since its last get/clear, once. The side conditions are re-decided by "
+              "the kernel on ANSI_SEQUENCES regenerated from /repo on every run; the regex patterns, the read count, "
+              "the paste end mark and the decoder's error mode are pinned against the tree. The models are tied to "
+              "/repo by a recogniser-vs-re differential and a differential correspondence (exhaustive small scope + "
+              "seeded random) on Vt100Parser (state after every feed/flush), on the spec vs the real parser, on "
+              "PosixStdinReader and Vt100Input over real pipes (inputs longer than 1024 bytes, every offset of the "
+              "1024/2048 boundary inside characters / sequences / paste marks, EOF, descriptor closed under the "
+              "reader), on typeahead.py and on _IsPrefixOfLongerMatchCache")
+LEVEL_NOTE = ("trusted: Lean kernel, axioms propext/Classical.choice/Quot.sound only; the hand-written models "
+              "(validated by the correspondence, not proved equal to the Python); the kernel side of the file "
+              "descriptor is modelled as 'os.read hands out min(available, count) bytes' (pipe / tty semantics); "
+              "CPython str/re/codecs/dict semantics")
 RULE = ("exhaustive: every string over a 13-symbol alphabet {ESC [ 1 ; M < O A ~ 2 0 R a} up to the tier's bound, "
         "fed character by character with the full parser state compared after every character and after a final "
         "flush; for the shorter strings additionally a flush at every split point and every chunking; every "
         "ANSI_SEQUENCES key and sample CPR/mouse reports alone and followed by every alphabet symbol; the four "
-        "regexes vs the recognisers on all short strings; every byte string over 20 representative byte values up "
-        "to the bound through the real PosixStdinReader (whole / per byte / len 3: every 2-split); then seeded random "
-        "streams mixing table keys, CPR / mouse reports (complete, truncated, malformed), paste blocks, control, "
-        "printable, non-BMP characters, cut into random reads with random flushes, random (also invalid) byte "
-        "strings with random cuts, and valid streams through Vt100Input on a real pipe with the UTF-8 bytes cut "
-        "at random offsets. A case is non-trivial when its stream contains ESC (bytes: a byte >= 0x80)")
+        "regexes vs the recognisers on all short strings; the SPEC (maximal-munch tokenisation) and the longest "
+        "recognised prefix vs the real parser / _get_match on every string over the 14-symbol alphabet (with "
+        "newline) up to the bound, on ESC[M + every string over {ESC \\n a [ A TAB} up to length 4, on every table "
+        "key followed by ESC..., and segment by segment on every random schedule; every byte string over 20 representative byte "
+        "values up to the bound through the real PosixStdinReader (whole / per byte / len 3: every 2-split); 4 "
+        "short valid streams cut into writes at every (pair of) byte offset(s) with reads interleaved in every "
+        "pattern and 5 endings (drain / EOF / descriptor closed under the reader / mixed) plus a mid-stream flush; "
+        "the 1024- and 2048-byte boundary at every offset inside 9 probe sequences and inside the paste start / "
+        "end marks; every typeahead op sequence up to the bound over 2 inputs; every cache lookup sequence up to "
+        "the bound over 8 prefixes; then seeded random streams mixing table keys, CPR / mouse reports (complete, "
+        "truncated, malformed), paste blocks, control, printable, non-BMP characters, cut into random reads with "
+        "random flushes, random (also invalid) byte strings with random cuts, valid streams (also > 1024 bytes, "
+        "also inside long pastes) through Vt100Input on a real pipe with random writes / reads / flushes / EOF / "
+        "closed descriptor, random typeahead and cache op sequences. A case is non-trivial when its stream "
+        "contains ESC (bytes: a byte >= 0x80; fd: something is written and read; ta: something is stored)")
 EXHAUSTIVE = True
 EXHAUSTIVE_SCOPE = {
     "quick": "13-symbol alphabet: len<=4 char-by-char+flush; len<=3 flush at every split and all chunkings; "
-             "regex differential: full alphabet len<=3, CSI bodies len<=4; bytes: 20 values, len<=3",
+             "spec: 14-symbol alphabet len<=4, X10 payloads len<=4; regex differential: full alphabet len<=3, CSI "
+             "bodies len<=4; bytes: 20 values, len<=3; fd: 4 streams x all 1-cuts (2-cuts for streams <= 8 bytes) x "
+             "all read patterns x 5 endings, 1024/2048 boundary x 9 probes x every offset; typeahead: 8 ops, len<=4; "
+             "cache: 8 prefixes, len<=3",
     "thorough": "13-symbol alphabet: len<=5 char-by-char+flush; len<=4 flush at every split and all chunkings; "
-                "6-symbol alphabet len 5 and 4-symbol alphabet len 6 all chunkings; regex differential: full alphabet len<=4, CSI bodies "
-                "len<=5; bytes: 20 values, len<=4"}
+                "6-symbol alphabet len 5 and 4-symbol alphabet len 6 all chunkings; spec: 14-symbol alphabet len<=5; "
+                "regex differential: full alphabet len<=4, CSI bodies len<=5; bytes: 20 values, len<=4; fd: all "
+                "1- and 2-cuts; typeahead: len<=5; cache: len<=4"}
 TRUSTED = ["harness/c03.py compares (key, data) of every KeyPress and (in_paste, paste_buffer, generator prefix, "
-           "decoder buffer) after every feed/flush/read",
-           "Ptk/Model/C03.lean, C03Utf8.lean are hand translations of vt100_parser.py / the read path "
-           "(correspondence-checked)",
-           "harness/gen_c03.py prints ANSI_SEQUENCES, the regex patterns and the \\d class faithfully"]
-ASSUMPTIONS = ["CPython str / re / generator semantics", "regex \\d class regenerated from the interpreter",
+           "decoder buffer, closed) after every feed/flush/read",
+           "Ptk/Model/C03.lean, C03Spec.lean, C03Utf8.lean, C03Read.lean are hand translations of vt100_parser.py / "
+           "the read path / typeahead.py (correspondence-checked); C03Spec.lean is the SPEC and is read, not checked "
+           "against anything but the real parser",
+           "harness/gen_c03.py prints ANSI_SEQUENCES, the regex patterns, the \\d class, the read count, the ESC "
+           "literals of Vt100Parser.feed and the reader's error mode faithfully"]
+ASSUMPTIONS = ["CPython str / re / generator / dict semantics", "regex \\d class regenerated from the interpreter",
                "the incremental UTF-8 decoder is CPython runtime: modelled (utf8_decode error classes, "
                "surrogateescape, held-back truncated surrogate) and compared with the real one on every run",
-               "os.read / select deliver the written bytes in order (pipe semantics)",
-               "lone surrogates (undecodable bytes under surrogateescape) reach the parser only in the decoder-level "
-               "model (code points as Nat); the parser model works on Unicode scalar values"]
-PARTIAL_SCOPE = ["Win32 input, typeahead, raw/cooked mode and the event-loop attachment are out of scope",
-                 "decoding of *streams* of several sequences is proved lossless and chunk-independent; that each "
-                 "token of a stream is the longest possible one is proved for a single table sequence / report "
-                 "followed by a flush (as the property states), not for every token inside a longer stream",
-                 "os.read returning at most 1024 bytes per call and EOF/OSError handling of PosixStdinReader.read "
-                 "are driven (pipe cases) but not modelled"]
+               "os.read(fd, count) returns min(available, count) bytes, b'' at EOF; select reports a descriptor "
+               "readable iff data is available or all writers are gone; both raise OSError on a closed descriptor "
+               "(driven on real pipes on every run)",
+               "lone surrogates (undecodable bytes under surrogateescape) reach the parser only in the decoder/"
+               "reader-level model (code points as Nat); the parser model works on Unicode scalar values"]
+PARTIAL_SCOPE = ["Win32 input, raw/cooked mode and the event-loop attachment (_attached_input, callback_wrapper "
+                 "removing the reader once closed) are out of scope",
+                 "the refinement theorem is stated for tables satisfying wf + wf2 (re-decided on the current table): "
+                 "a table in which a multi-character sequence is a proper prefix of another one, contains a second "
+                 "ESC, or in which ESC \\n is a sequence would make the parser deviate from maximal munch (its `for` "
+                 "loop has no `break`) and is reported as a broken obligation, not as a theorem",
+                 "OSError out of os.read on a healthy descriptor (EINTR/SIGWINCH: `data = b''`) is modelled only "
+                 "together with the dead descriptor; the Application's use of the typeahead store (store on exit, "
+                 "feed on start) is not modelled, only the store itself",
+                 "bytes that are still an incomplete UTF-8 sequence at EOF stay in the decoder and are never "
+                 "delivered (modelled and driven as it is; they are not 'characters' in the property's sense)"]
+ANCHORS = ["src/prompt_toolkit/input/vt100_parser.py", "src/prompt_toolkit/input/ansi_escape_sequences.py",
+           "src/prompt_toolkit/input/vt100.py", "src/prompt_toolkit/input/posix_utils.py",
+           "src/prompt_toolkit/input/typeahead.py"]
+# functions whose bodies the Lean model follows line by line AND that the correspondence exercises
+MODELLED = {
+    "src/prompt_toolkit/input/vt100_parser.py": [
+        "_IsPrefixOfLongerMatchCache.__missing__", "Vt100Parser._get_match", "Vt100Parser._input_parser_generator",
+        "Vt100Parser._call_handler", "Vt100Parser.feed", "Vt100Parser.flush", "Vt100Parser.feed_and_flush",
+        "Vt100Parser.reset", "Vt100Parser._start_parser"],
+    "src/prompt_toolkit/input/posix_utils.py": ["PosixStdinReader.__init__", "PosixStdinReader.read"],
+    "src/prompt_toolkit/input/vt100.py": ["Vt100Input.read_keys", "Vt100Input.flush_keys", "Vt100Input.closed"],
+    "src/prompt_toolkit/input/typeahead.py": ["store_typeahead", "get_typeahead", "clear_typeahead"],
+}
 
 ESC = "\x1b"
 PASTE_START = "\x1b[200~"
 PASTE_END = "\x1b[201~"
 ALPHA13 = [ESC, "[", "1", ";", "M", "<", "O", "A", "~", "2", "0", "R", "a"]
+ALPHA14 = ALPHA13 + ["\n"]
+X10_ALPHA = [ESC, "\n", "a", "[", "A", "\t"]
 ALPHA6 = [ESC, "[", "2", "0", "~", "1"]
 ALPHA4 = [ESC, "[", "1", "~"]
 RE_FULL = [ESC, "[", "1", ";", "M", "m", "<", "R", "\n", "a", "٣", "~"]
@@ -152,10 +207,38 @@ def op_line(op) -> str:
 RE_OPS = ["cpr", "mouse", "cprp", "mousep", "pfx", "match"]
 
 
+def segments(ops):
+    """the stream segments between the flushes of a schedule that is closed by a final flush"""
+    segs, cur = [], ""
+    for op in ops:
+        if op[0] == "feed":
+            cur += op[1]
+        else:
+            segs.append(cur)
+            cur = ""
+    segs.append(cur)
+    return segs
+
+
 def model_lines(case):
     k = case["k"]
     if k == "re":
         return [f"{o} {enc_str(s)}" for s in case["strs"] for o in RE_OPS]
+    if k == "spec":
+        return [f"{o} {enc_str(s)}" for s in case["strs"] for o in ("spec", "lm")]
+    if k in ("fd", "rd"):
+        return ["reset"] + [FD_LINE[op[0]] + (" " + enc_bytes(bytes(op[1])) if op[0] == "w" else "")
+                            for op in case["ops"]]
+    if k == "ta":
+        out = ["reset"]
+        for op in case["ops"]:
+            if op[0] == "store":
+                out.append(f"tas {enc_str(op[1])} {enc_str(op[2])}")
+            else:
+                out.append(("tag " if op[0] == "take" else "tac ") + enc_str(op[1]))
+        return out
+    if k == "pc":
+        return ["reset"] + ["pfxc " + enc_str(p) for p in case["strs"]]
     if k == "pipe":
         data = case["s"].encode("utf-8")
         return ["reset"] + ["read " + enc_bytes(p) for p in pipe_pieces(data, case["cuts"])] + ["bflush"]
@@ -165,7 +248,152 @@ def model_lines(case):
     for ops in schedules(case):
         out.append("reset")
         out += [op_line(op) for op in ops]
+    if k == "ops":
+        # the SPEC on the whole schedule (closed by a flush) vs the real parser (the exhaustive
+        # strings of the "x" cases are covered by the "spec" cases, a superset)
+        out.append("specsegs " + " ".join(enc_str(x) for x in segments(schedules(case)[0])))
     return out
+
+
+FD_LINE = {"w": "fdw", "cw": "fdcw", "cr": "fdcr", "rk": "rk", "fk": "fk", "rr": "rr"}
+
+
+def fd_run(case):
+    """kind "fd": a real Vt100Input (PosixPipeInput) on a real pipe.
+    ops: ["w", bytes] os.write on the write end; ["cw"] close the write end (EOF);
+    ["cr"] close the read end under the reader (select / os.read raise OSError);
+    ["rk"] read_keys(); ["fk"] flush_keys()
+    -> one entry per op: "ok" or (keys, parser state, decoder buffer, closed)"""
+    from prompt_toolkit.input import create_pipe_input
+
+    out = []
+    with create_pipe_input() as inp:
+        p = inp.vt100_parser
+
+        def snap(keys):
+            st = (bool(p._in_bracketed_paste), getattr(p, "_paste_buffer", ""),
+                  p._input_parser.gi_frame.f_locals["prefix"])
+            return ([(key_name(k.key), k.data) for k in keys], st,
+                    bytes(inp.stdin_reader._stdin_decoder.getstate()[0]), bool(inp.closed))
+
+        for op in case["ops"]:
+            if op[0] == "w":
+                inp.send_bytes(bytes(op[1]))
+                out.append("ok")
+            elif op[0] == "cw":
+                inp.close()
+                out.append("ok")
+            elif op[0] == "cr":
+                inp.pipe.close_read()
+                out.append("ok")
+            elif op[0] == "rk":
+                out.append(snap(inp.read_keys()))
+            elif op[0] == "fk":
+                out.append(snap(inp.flush_keys()))
+            else:
+                raise ValueError(op)
+    return out
+
+
+def rd_run(case):
+    """kind "rd": a real PosixStdinReader on a real pipe (arbitrary bytes).  ops w / cw / cr / rr
+    -> "ok" or (text, decoder buffer, closed)"""
+    from prompt_toolkit.input.posix_utils import PosixStdinReader
+
+    r, w = os.pipe()
+    open_r, open_w = True, True
+    out = []
+    try:
+        reader = PosixStdinReader(r)
+        for op in case["ops"]:
+            if op[0] == "w":
+                os.write(w, bytes(op[1]))
+                out.append("ok")
+            elif op[0] == "cw":
+                if open_w:
+                    os.close(w)
+                    open_w = False
+                out.append("ok")
+            elif op[0] == "cr":
+                if open_r:
+                    os.close(r)
+                    open_r = False
+                out.append("ok")
+            elif op[0] == "rr":
+                text = reader.read()
+                out.append((text, bytes(reader._stdin_decoder.getstate()[0]), bool(reader.closed)))
+            else:
+                raise ValueError(op)
+    finally:
+        if open_r:
+            os.close(r)
+        if open_w:
+            os.close(w)
+    return out
+
+
+class _TAInput:
+    """just enough of an Input for typeahead.py"""
+
+    def __init__(self, key):
+        self.key = key
+
+    def typeahead_hash(self):
+        return self.key
+
+
+def ta_run(case):
+    """kind "ta": the real store_typeahead / get_typeahead / clear_typeahead"""
+    from prompt_toolkit.input import typeahead as TA
+    from prompt_toolkit.key_binding import KeyPress
+
+    keys = sorted({op[1] for op in case["ops"]})
+    for k in keys:
+        TA.clear_typeahead(_TAInput(k))
+    out = []
+    try:
+        for op in case["ops"]:
+            inp = _TAInput(op[1])
+            if op[0] == "store":
+                TA.store_typeahead(inp, [KeyPress(c, c) for c in op[2]])
+                out.append("ok")
+            elif op[0] == "take":
+                got = TA.get_typeahead(inp)
+                out.append([(key_name(kp.key), kp.data) for kp in got])
+            elif op[0] == "clear":
+                TA.clear_typeahead(inp)
+                out.append("ok")
+            else:
+                raise ValueError(op)
+    finally:
+        for k in keys:
+            TA.clear_typeahead(_TAInput(k))
+    return out
+
+
+def fmt_presses(ks) -> str:
+    return str(len(ks)) + "".join(f" {enc_str(k)} {enc_str(d)}" for k, d in ks)
+
+
+def real_longest(s: str) -> int:
+    """length of the longest prefix of s the real _get_match recognises (0 = none)"""
+    p = Vt100Parser(lambda k: None)
+    for i in range(len(s), 0, -1):
+        if p._get_match(s[:i]):
+            return i
+    return 0
+
+
+def real_flushed(ops):
+    """a fresh real parser driven through ops + a final flush -> formatted keys / final state"""
+    r = Real()
+    if len(ops) == 1 and ops[0][0] == "feed":
+        r.p.feed_and_flush(ops[0][1])
+    else:
+        for op in ops:
+            r.apply(op)
+        r.apply(["flush"])
+    return fmt(r.take(), r.state())
 
 
 def re_lines(s: str):
@@ -252,6 +480,26 @@ def impl_lines(case):
         for s in case["strs"]:
             out += re_lines(s)
         return out
+    if k == "spec":
+        out = []
+        for s in case["strs"]:
+            out += [real_flushed([["feed", s]]), str(real_longest(s))]
+        return out
+    if k == "fd":
+        return ["ok"] + [x if x == "ok" else fmt(x[0], x[1]) + " " + enc_bytes(x[2]) + " " + str(int(x[3]))
+                         for x in fd_run(case)]
+    if k == "rd":
+        return ["ok"] + [x if x == "ok" else enc_str(x[0]) + " " + enc_bytes(x[1]) + " " + str(int(x[2]))
+                         for x in rd_run(case)]
+    if k == "ta":
+        return ["ok"] + [x if x == "ok" else fmt_presses(x) for x in ta_run(case)]
+    if k == "pc":
+        c = VP._IsPrefixOfLongerMatchCache()
+        out = ["ok"]
+        for p in case["strs"]:
+            hit = p in c
+            out.append(f"{int(bool(c[p]))} {int(hit)} {len(c)}")
+        return out
     if k == "pipe":
         return ["ok"] + [fmt(keys, st) + " " + enc_bytes(buf) for keys, st, buf in pipe_run(case)]
     if k == "dec":
@@ -263,6 +511,8 @@ def impl_lines(case):
         for op in ops:
             r.apply(op)
             out.append(fmt(r.take(), r.state()))
+    if k == "ops":
+        out.append(real_flushed(schedules(case)[0]))
     return out
 
 
@@ -324,6 +574,89 @@ _CPR_RE = _re.compile(r"\x1b\[[0-9]+;[0-9]+R\Z")
 _MOUSE_RE = _re.compile(r"\x1b\[(M[^\n]{3}|<?[0-9]+;[0-9]+;[0-9]+[mM])\Z")
 
 
+# the recognisers of the SPEC, written down here independently of vt100_parser.py (same languages
+# as the two report regexes there: Unicode digits, X10 payload = any three characters but newline)
+_SPEC_CPR = _re.compile(r"\x1b\[\d+;\d+R\Z")
+_SPEC_MOUSE = _re.compile(r"\x1b\[(?:<?[\d;]+[mM]|M[^\n][^\n][^\n])\Z")
+
+
+def spec_match(p: str):
+    """what a complete sequence decodes to: tuple of key names, () = not a sequence"""
+    if _SPEC_CPR.match(p):
+        return (Keys.CPRResponse.value,)
+    if _SPEC_MOUSE.match(p):
+        return (Keys.Vt100MouseEvent.value,)
+    v = ANSI_SEQUENCES.get(p)
+    if v is None:
+        return ()
+    return tuple(key_name(x) for x in (v if isinstance(v, tuple) else (v,)))
+
+
+_MAXKEY = max(len(k) for k in ANSI_SEQUENCES)
+
+
+def py_spec(s: str, paste=None):
+    """maximal-munch tokenisation of a complete stream (the property's 'decode by longest match',
+    'every character in exactly one key press', 'paste verbatim as one event').
+    paste = text of a bracketed paste that is already open (None = normal mode)
+    -> (key presses, open paste text or None)"""
+    out = []
+    while True:
+        if paste is not None:
+            buf = paste + s
+            j = buf.find(PASTE_END)
+            if j < 0:
+                return out, buf
+            out.append((Keys.BracketedPaste.value, buf[:j]))
+            s, paste = buf[j + len(PASTE_END):], None
+            continue
+        if not s:
+            return out, None
+        n = 0
+        for i in range(len(s), 0, -1):
+            # only reports can be longer than the longest table sequence; they end in R, m, M or
+            # are exactly 6 characters long
+            if i > _MAXKEY and i != 6 and s[i - 1] not in "RmM":
+                continue
+            if spec_match(s[:i]):
+                n = i
+                break
+        if n == 0:
+            out.append((s[0], s[0]))
+            s = s[1:]
+            continue
+        m = spec_match(s[:n])
+        if m == (Keys.BracketedPaste.value,):
+            s, paste = s[n:], ""
+            continue
+        out += [(k, s[:n] if i == 0 else "") for i, k in enumerate(m)]
+        s = s[n:]
+
+
+def py_spec_segs(segs):
+    keys, paste = [], None
+    for seg in segs:
+        ks, paste = py_spec(seg, paste)
+        keys += ks
+    return keys, paste
+
+
+def check_spec(ops, v):
+    """the parser's output for the schedule (closed by a flush) is the maximal-munch tokenisation
+    of its segments"""
+    r = Real()
+    keys = []
+    for op in ops + [["flush"]]:
+        r.apply(op)
+        keys += r.take()
+    st = r.state()
+    exp_keys, exp_paste = py_spec_segs(segments(ops))
+    exp_st = (exp_paste is not None, exp_paste or "", "")
+    if keys != exp_keys or st != exp_st:
+        v.append({"signature": "Vt100Parser | keys differ from the longest-match tokenisation of the stream",
+                  "msg": f"ops={ops!r} (+ final flush): parser={keys, st} expected={exp_keys, exp_st}"})
+
+
 def check_schedule(ops, v):
     def bad(site, cond, msg):
         v.append({"signature": f"{site} | {cond}", "msg": f"{msg}: ops={ops!r}"})
@@ -375,6 +708,26 @@ def oracle(case):
     k = case["k"]
     if k == "re":
         return v
+    if k == "spec":
+        for s in case["strs"]:
+            check_spec([["feed", s]], v)
+            if v:
+                break
+        return v
+    if k == "fd":
+        return oracle_fd(case)
+    if k == "rd":
+        return oracle_rd(case)
+    if k == "ta":
+        return oracle_ta(case)
+    if k == "pc":
+        for p in case["strs"]:
+            c = VP._IsPrefixOfLongerMatchCache()
+            first, again, fresh = c[p], c[p], VP._IsPrefixOfLongerMatchCache().__missing__(p)
+            if not (bool(first) == bool(again) == bool(fresh)):
+                v.append({"signature": "_IsPrefixOfLongerMatchCache | cached answer differs from the computed one",
+                          "msg": f"prefix={p!r} first={first!r} cached={again!r} computed={fresh!r}"})
+        return v
     if k == "pipe":
         steps = pipe_run(case)
         keys = [x for ks, _, _ in steps for x in ks]
@@ -404,12 +757,100 @@ def oracle(case):
         return v
     for ops in schedules(case):
         check_schedule(ops, v)
+        if k == "ops" or (case.get("m") == "cf" and len(case["s"]) > 5):
+            check_spec(ops, v)
     seen, out = set(), []
     for x in v:
         if x["signature"] not in seen:
             seen.add(x["signature"])
             out.append(x)
     return out
+
+
+def oracle_fd(case):
+    """everything written to the descriptor is accounted for: (a) LOSSLESS for every schedule of
+    writes / reads / flushes — the data of the key presses (a paste press standing for its two
+    marks and its text) plus what is still pending spell exactly the decoded text; (b) with a
+    single final flush the keys are exactly those of ONE feed of the whole text + flush, however
+    os.read (<= 1024 bytes a time) and the writes cut it.  Judged only when the reader certainly
+    got the chance to drain the pipe (no close of the read end, enough reads after the last write)."""
+    v = []
+    ops = case["ops"]
+    if any(op[0] == "cr" for op in ops) or ops[-1][0] != "fk":
+        return v
+    written = b"".join(bytes(op[1]) for op in ops if op[0] == "w")
+    nreads_after = 0
+    for op in reversed(ops[:-1]):
+        if op[0] == "rk":
+            nreads_after += 1
+        elif op[0] == "w":
+            break
+    if nreads_after * 1024 < len(written):
+        return v
+    res = fd_run(case)
+    keys = [x for r in res if r != "ok" for x in r[0]]
+    import codecs
+    dec = codecs.getincrementaldecoder("utf-8")("surrogateescape")
+    text = dec.decode(written)
+    last = [r for r in res if r != "ok"][-1]
+    rec = reconstruct(keys, last[1])
+    if rec != text:
+        i = next((j for j, (a, b) in enumerate(zip(rec, text)) if a != b), min(len(rec), len(text)))
+        v.append({"signature": "Vt100Input.read_keys | input not reconstructible from key data",
+                  "msg": f"ops={_short_ops(ops)}: first difference at character {i}: "
+                         f"reconstructed …{rec[max(0, i - 10):i + 10]!r} written …{text[max(0, i - 10):i + 10]!r}"})
+    if all(op[0] != "fk" for op in ops[:-1]):
+        ref, rst, _ = run_real([["feed", text], ["flush"]])
+        if keys != ref or last[1] != rst:
+            v.append({"signature": "Vt100Input.read_keys | keys depend on how os.read cuts the byte stream",
+                      "msg": f"ops={_short_ops(ops)} pipe={keys[-8:], last[1]} direct={ref[-8:], rst} (last 8 keys shown)"})
+    if last[1][2] != "":
+        v.append({"signature": "Vt100Parser.flush | prefix left after flush", "msg": f"pipe state={last[1]!r}"})
+    return v
+
+
+def _short_ops(ops):
+    return [[op[0], (bytes(op[1]) if len(op[1]) <= 40 else f"<{len(op[1])} bytes: {bytes(op[1][:12])!r}…{bytes(op[1][-12:])!r}>")]
+            if op[0] == "w" else op for op in ops]
+
+
+def oracle_rd(case):
+    """reader level: the texts returned, re-encoded, plus the pending bytes are exactly the bytes
+    that were written and read (nothing lost, nothing altered, nothing invented)"""
+    v = []
+    ops = case["ops"]
+    if any(op[0] == "cr" for op in ops):
+        return v
+    res = rd_run(case)
+    written = b"".join(bytes(op[1]) for op in ops if op[0] == "w")
+    reads = [r for r in res if r != "ok"]
+    if not reads:
+        return v
+    back = "".join(t for t, _, _ in reads).encode("utf-8", "surrogateescape") + reads[-1][1]
+    if not written.startswith(back):
+        v.append({"signature": "PosixStdinReader.read | bytes lost or altered",
+                  "msg": f"ops={_short_ops(ops)} round trip={back[-40:]!r}"})
+    return v
+
+
+def oracle_ta(case):
+    """get_typeahead returns exactly what was stored for that input since its last get/clear"""
+    v = []
+    exp = {}
+    res = ta_run(case)
+    for op, got in zip(case["ops"], res):
+        if op[0] == "store":
+            exp[op[1]] = exp.get(op[1], []) + [(c, c) for c in op[2]]
+        elif op[0] == "clear":
+            exp[op[1]] = []
+        else:
+            want = exp.get(op[1], [])
+            exp[op[1]] = []
+            if got != want:
+                v.append({"signature": "get_typeahead | does not return exactly the stored key presses",
+                          "msg": f"ops={case['ops']!r} got={got!r} expected={want!r}"})
+                break
+    return v
 
 
 # ------------------------------------------------------------------ generators
@@ -522,6 +963,18 @@ def cases(tier, rng):
         strs += [k + a for a in ALPHA13]
     for b in batched(strs, 400):
         yield {"k": "re", "strs": b}
+    # 1b. the SPEC (maximal-munch tokenisation of the whole stream) vs the real parser, and the
+    #     longest recognised prefix vs the real _get_match: all short strings, the X10 payload
+    #     region (ESC / newline inside a truncated mouse report), every table key followed by ESC...
+    strs = []
+    for n in range((4 if quick else 5) + 1):
+        strs += list(all_strings(ALPHA14, n))
+    for n in range(5):
+        strs += ["\x1b[M" + w for w in all_strings(X10_ALPHA, n)]
+    for k in TABLE_KEYS:
+        strs += [k + ESC, k + ESC + "[A", k + k, ESC + k, k + "\n" + ESC]
+    for b in batched(strs, 500):
+        yield {"k": "spec", "strs": b}
     # 2. parser, exhaustive small scope
     ncf = 4 if quick else 5
     nfs = 3 if quick else 4
@@ -582,6 +1035,164 @@ def cases(tier, rng):
         nb = len(s.encode("utf-8"))
         cuts = sorted(rng.randrange(0, nb + 1) for _ in range(rng.choice([0, 1, 2, 5, nb])))
         yield {"k": "pipe", "s": s, "cuts": cuts}
+    # 6. the read path as it is (1024-byte reads, EOF, OSError), 7. typeahead, 8. the prefix cache
+    yield from fd_cases(tier, rng)
+    yield from ta_cases(tier, rng)
+    yield from pc_cases(tier, rng)
+
+
+FD_TEXTS = ["é\x1b[A", "\x1b[200~a\x1b[201~b", "a世\x1b", "\x1b[3;7R😀"]
+FD_TAILS = [[["rk"], ["fk"]], [["cw"], ["rk"], ["rk"], ["fk"]], [["cr"], ["rk"], ["fk"]],
+            [["rk"], ["cw"], ["rk"], ["rk"], ["fk"]], [["fk"], ["rk"], ["cw"], ["rk"], ["cr"], ["rk"], ["fk"]]]
+FD_MID = [["rk"], ["rk"], ["fk"]]  # a read followed by the flush timeout, in the middle of the stream
+FD_PROBES = ["é", "世", "😀", "\x1b[A", "\x1b[1;5C", "\x1b[24;80R", "\x1b[<64;85;12M", "\x1b[Mabc", "\x1bOP"]
+
+
+def nreads(nbytes):
+    return [["rk"]] * (nbytes // 1024 + 2)
+
+
+def fd_cases(tier, rng):
+    """the read path as it is: os.read hands out at most 1024 bytes per call; EOF; OSError.
+    (a) short valid streams cut into writes at every (pair of) byte offset(s), reads interleaved
+        in every pattern, followed by: drain+flush / EOF / dead descriptor;
+    (b) the 1024- and 2048-byte boundaries falling at every offset inside a multi-byte character,
+        an escape sequence, a CPR / mouse report, the paste start and end marks;
+    (c) random streams (also longer than 1024 bytes), random writes, reads, EOF, dead descriptor"""
+    quick = tier == "quick"
+    for text in FD_TEXTS:
+        data = text.encode("utf-8")
+        pos = list(range(1, len(data)))
+        cutsets = [()] + [(a,) for a in pos] + ([(a, b) for a in pos for b in pos if a < b] if not quick or len(data) <= 8 else [])
+        for cuts in cutsets:
+            cs = [0] + list(cuts) + [len(data)]
+            pieces = [list(data[a:b]) for a, b in zip(cs, cs[1:])]
+            for mask in range(1 << len(pieces)):
+                ops = []
+                for i, pc in enumerate(pieces):
+                    ops.append(["w", pc])
+                    if mask >> i & 1:
+                        ops.append(["rk"])
+                for tail in FD_TAILS:
+                    yield {"k": "fd", "ops": ops + tail}
+            # the flush timeout striking after each write (e.g. while a paste is open)
+            if len(cuts) == 1:
+                ops = [["w", pieces[0]], ["rk"], ["fk"], ["w", pieces[1]], ["rk"], ["rk"], ["fk"]]
+                yield {"k": "fd", "ops": ops}
+    # (b) boundaries
+    for bound in (1024, 2048):
+        for probe in FD_PROBES:
+            pb = probe.encode("utf-8")
+            for j in range(len(pb) + 1):
+                data = b"x" * (bound - j) + pb + b"y"
+                yield {"k": "fd", "ops": [["w", list(data)]] + nreads(len(data)) + [["fk"]]}
+                if j % 2 == 0:
+                    yield {"k": "fd", "ops": [["w", list(data)], ["cw"]] + nreads(len(data)) + [["fk"]]}
+        for j in range(7):  # paste END mark across the boundary; paste START mark across the boundary
+            body = "p" * (bound - 6 - j)
+            data = (PASTE_START + body + PASTE_END + "z\x1b").encode()
+            yield {"k": "fd", "ops": [["w", list(data)]] + nreads(len(data)) + [["fk"]]}
+            data = ("x" * (bound - j) + PASTE_START + "pp" + PASTE_END + "z").encode()
+            yield {"k": "fd", "ops": [["w", list(data)]] + nreads(len(data)) + [["fk"]]}
+    # (c) random
+    for _ in range(250 if quick else 5000):
+        text = rand_stream(rng, rng.choice([1, 2, 4, 8, 30]))
+        if rng.random() < 0.4:
+            filler = rng.choice(["x", "é", "\x1b[A", "世"]) * rng.randrange(200, 1100)
+            if rng.random() < 0.3:
+                filler = PASTE_START + filler + (PASTE_END if rng.random() < 0.8 else "")
+            i = rng.randrange(0, len(text) + 1)
+            text = text[:i] + filler + text[i:]
+        data = text.encode("utf-8")
+        ops, i = [], 0
+        while i < len(data):
+            n = rng.choice([1, 2, 3, 7, 100, 1023, 1024, 1025, 3000])
+            ops.append(["w", list(data[i:i + n])])
+            i += n
+            if rng.random() < 0.5:
+                ops.append(["rk"])
+                if rng.random() < 0.15:
+                    ops.append(["fk"])
+        kind = rng.random()
+        if kind < 0.12 and ops:
+            # dead descriptor at a random point: nothing is written after it
+            k = rng.randrange(0, len(ops) + 1)
+            ops = [op for op in ops[:k]] + [["cr"], ["rk"], ["rk"], ["fk"]]
+        elif kind < 0.5:
+            ops += [["cw"]] + nreads(len(data)) + [["fk"]]
+        else:
+            ops += nreads(len(data)) + [["fk"]]
+        yield {"k": "fd", "ops": ops}
+    # reader level, arbitrary (also invalid) bytes
+    seqs = [[0xE4, 0xB8, 0x96], [0xF0, 0x9F, 0x98, 0x80], [0xED, 0xA0, 0x80], [0xE0, 0x80], [0xC3], [0xC3, 0xA9],
+            [0xF4, 0x90, 0x80, 0x80], [0xFF]]
+    for sq in seqs:
+        for j in range(len(sq) + 1):
+            data = [0x78] * (1024 - j) + sq + [0x79]
+            yield {"k": "rd", "ops": [["w", data], ["rr"], ["rr"], ["rr"], ["cw"], ["rr"], ["rr"]]}
+    for _ in range(250 if quick else 5000):
+        n = rng.choice([1, 3, 10, 1000, 1030, 2500])
+        data = [rng.choice(U8_ALPHA + [rng.randrange(256)]) for _ in range(n)] if rng.random() < 0.5 \
+            else list(rand_stream(rng, rng.choice([1, 3, 8])).encode("utf-8") * rng.choice([1, 1, 40]))
+        ops, i = [], 0
+        while i < len(data):
+            m = rng.choice([1, 2, 5, 500, 1024, 1025, 4000])
+            ops.append(["w", data[i:i + m]])
+            i += m
+            if rng.random() < 0.6:
+                ops.append(["rr"])
+        kind = rng.random()
+        if kind < 0.15:
+            k = rng.randrange(0, len(ops) + 1)
+            ops = ops[:k] + [["cr"], ["rr"], ["rr"]]
+        elif kind < 0.6:
+            ops += [["rr"]] * rng.randrange(0, 4) + [["cw"]] + [["rr"]] * (len(data) // 1024 + 3)
+        else:
+            ops += [["rr"]] * (len(data) // 1024 + 2)
+        yield {"k": "rd", "ops": ops}
+
+
+TA_KEYS = ["fd-0", "pipe-input-1"]
+
+
+def ta_cases(tier, rng):
+    """typeahead store: every op sequence up to the bound over 2 inputs, then random ones over 3"""
+    quick = tier == "quick"
+    alpha = []
+    for k in TA_KEYS:
+        alpha += [["store", k, "a"], ["store", k, "bc"], ["take", k], ["clear", k]]
+    for n in range(1, (4 if quick else 5) + 1):
+        for tup in itertools.product(alpha, repeat=n):
+            if tup[-1][0] == "take":  # sequences ending in a get are the informative ones
+                yield {"k": "ta", "ops": [list(x) for x in tup]}
+    keys3 = TA_KEYS + ["dummy-3"]
+    for _ in range(200 if quick else 3000):
+        ops = []
+        for _ in range(rng.randrange(1, 30)):
+            k = rng.choice(keys3)
+            r = rng.random()
+            if r < 0.5:
+                ops.append(["store", k, "".join(rng.choice("abcé\x1b") for _ in range(rng.randrange(0, 4)))])
+            elif r < 0.9:
+                ops.append(["take", k])
+            else:
+                ops.append(["clear", k])
+        yield {"k": "ta", "ops": ops}
+
+
+PC_STRS = [ESC, "\x1b[", "\x1b[1;5", "a", "\x1b[A", "\x1b[<64;100;100", "\x1b[M\x1b\n", "\x1b[1234567890;123"]
+
+
+def pc_cases(tier, rng):
+    """_IsPrefixOfLongerMatchCache as a dict: every lookup sequence up to the bound over 8 prefixes
+    (repeats = cache hits), then random sequences over the regex-differential strings"""
+    quick = tier == "quick"
+    for n in range(1, (3 if quick else 4) + 1):
+        for tup in itertools.product(PC_STRS, repeat=n):
+            yield {"k": "pc", "strs": list(tup)}
+    for _ in range(200 if quick else 3000):
+        pool = [rand_token(rng)[: rng.randrange(0, 16)] for _ in range(rng.randrange(1, 6))]
+        yield {"k": "pc", "strs": [rng.choice(pool) for _ in range(rng.randrange(1, 12))]}
 
 
 U8_ALPHA = [0x41, 0x1b, 0x80, 0x8f, 0x90, 0x9f, 0xa0, 0xbf, 0xc1, 0xc2, 0xdf, 0xe0, 0xe1, 0xed, 0xee, 0xf0,
@@ -622,18 +1233,26 @@ def dec_cases(tier, rng):
 
 
 def sample_view(case):
-    if case["k"] == "re":
-        return {"k": "re", "strs": case["strs"][:5] + [f"... {len(case['strs'])} strings"]}
+    if case["k"] in ("fd", "rd"):
+        return {"k": case["k"], "ops": _short_ops(case["ops"])}
+    if case["k"] in ("re", "spec"):
+        return {"k": case["k"], "strs": case["strs"][:5] + [f"... {len(case['strs'])} strings"]}
     return case
 
 
 def nontrivial(case):
-    if case["k"] == "re":
+    if case["k"] in ("re", "spec"):
         return True
     if case["k"] == "ops":
         return any(ESC in op[1] for op in case["ops"] if op[0] == "feed")
     if case["k"] == "dec":
         return any(b >= 0x80 for c in case["chunks"] for b in c)
+    if case["k"] in ("fd", "rd"):
+        return any(op[0] in ("rk", "rr") for op in case["ops"]) and any(op[0] == "w" for op in case["ops"])
+    if case["k"] == "ta":
+        return any(op[0] == "store" for op in case["ops"])
+    if case["k"] == "pc":
+        return True
     return ESC in case["s"]
 
 
@@ -642,10 +1261,21 @@ def distribution(cases):
     for c in cases:
         kind = c["k"] + (":" + c["m"] if c["k"] == "x" else "")
         d["kind"][kind] = d["kind"].get(kind, 0) + 1
-        if c["k"] == "re":
-            d["re_strings"] += len(c["strs"])
+        if c["k"] in ("re", "spec"):
+            d["re_strings" if c["k"] == "re" else "spec_strings"] = \
+                d.get("re_strings" if c["k"] == "re" else "spec_strings", 0) + len(c["strs"])
             continue
-        if c["k"] == "dec":
+        if c["k"] in ("ta", "pc"):
+            continue
+        if c["k"] in ("fd", "rd"):
+            n = sum(len(op[1]) for op in c["ops"] if op[0] == "w")
+            for tag in ("cw", "cr"):
+                if any(op[0] == tag for op in c["ops"]):
+                    d.setdefault("fd_events", {})
+                    d["fd_events"][tag] = d["fd_events"].get(tag, 0) + 1
+            if n > 1024:
+                d["over_1024_bytes"] = d.get("over_1024_bytes", 0) + 1
+        elif c["k"] == "dec":
             n = sum(len(x) for x in c["chunks"])
         elif c["k"] == "ops":
             n = sum(len(op[1]) for op in c["ops"] if op[0] == "feed")
